@@ -101,4 +101,4 @@ NOT_APPLICABLE = {
 UNBUILT_REASON = 'structural clause identified (DESIGN section 4) but the checker is not built; not claimed'
 
 # rule modules that exist but are not claimed yet (work in progress / waiting for a fix commit)
-PENDING = {'C04', 'C06', 'C07', 'C08', 'C14', 'C19'}  # waiting for fix round 4 to land in /repo
+PENDING = {'C01'}  # C01.index-norm finding: fix pending full-suite run (round 5)
